@@ -14,6 +14,7 @@ def toz3(x):
     if isinstance(x, float):
         if x == float("inf"): return PINF
         return z3.RealVal(repr(x))
+    if type(x).__name__ == "SArr" and x.shape == (): return toz3(x.get(()))          # 0-dimensional array: its single element
     raise TypeError(f"cannot lift {x!r}")
 PINF = z3.Real("+inf")               # constrained > every finite real only where compared (see models.stdlib)
 
